@@ -84,17 +84,21 @@ impl<const N: usize> NodeVersions<N> {
     }
 
     /// Attempts to update the latest observed timestamp for a given source.
+    ///
+    /// An operation is only refused when it happened before the safe cut off for its node,
+    /// which is the same rule `will_apply` and `diff` use. Operations which are older than the
+    /// newest one seen on this source, but still within the forgiveness period, are accepted
+    /// and leave the maximum untouched.
     fn try_update_max_stamp(&mut self, source: usize, ts: HLCTimestamp) -> bool {
+        if self.is_ts_before_last_observed_event(ts) {
+            return false;
+        }
+
         match self.nodes_max_stamps[source].entry(ts.node()) {
             Entry::Occupied(mut entry) => {
-                // We have already observed these events at some point from this node.
-                // This means we can no longer trust that this key is in fact still valid.
-                if &ts < entry.get() {
-                    self.compute_safe_last_stamp(ts.node());
-                    return false;
+                if entry.get() < &ts {
+                    entry.insert(ts);
                 }
-
-                entry.insert(ts);
             },
             Entry::Vacant(v) => {
                 v.insert(ts);
